@@ -28,7 +28,11 @@ Print Assumptions C10_ids_iff.
     valid ids; every entry satisfies [resolvable_entryb] (a last path segment ["Cow"] comes with a
     typed first parameter; Composite / Variant entries have a >= 2 segment path of lexical
     identifiers or a 1 segment path from [prelude_table]; no U256 / I256); the settings have a
-    compact (bits) path whenever a Compact (BitSequence) entry exists.
+    compact (bits) path whenever a Compact (BitSequence) entry exists; the inner type of every
+    Compact entry - after the one-level Cow look-through of the resolver - is neither a Tuple nor
+    an Array ([compact_inner_ok_at], boolean [compact_inner_okb] in [wf_regb]: a compact FIELD
+    renders its inner type with [parse_quote!( #inner )] into a [syn::TypePath], which panics on
+    [(..)] / [[..; n]]).
     Conclusion: with the fuel the model starts from, resolution of every valid id - as a field
     or not, under any parent parameters - is [Ok] (never [EOutOfFuel], [Panic] or another
     error), and printing the resulting path is [Ok] as well. *)
@@ -48,6 +52,29 @@ Theorem C10_resolve_fuel :
   exists t, resolve_rec r s fuel id is_field parents orig = Ok t /\ no256 t = true.
 Proof. exact resolve_rec_total. Qed.
 Print Assumptions C10_resolve_fuel.
+
+(** the invariant that makes printing total: [tokenizable t] = no 256-bit primitive and no
+    compact field whose inner path is a tuple / an array.  It is exactly the class of paths on
+    which [tp_tokens] is [Ok], resolution results have it, and it implies [no256]. *)
+Theorem C10_tp_tokens_ok_iff :
+  forall alloc t, (exists toks, tp_tokens alloc t = Ok toks) <-> tokenizable t = true.
+Proof.
+  intros alloc t. split.
+  - intros (toks & H). exact (tp_tokens_ok_inv alloc t toks H).
+  - exact (tp_tokens_ok alloc t).
+Qed.
+Print Assumptions C10_tp_tokens_ok_iff.
+
+Theorem C10_resolve_fuel_tokenizable :
+  forall r s rank, resolvable r s rank ->
+  forall fuel id is_field parents orig, in_reg r id -> rank id < fuel ->
+  exists t, resolve_rec r s fuel id is_field parents orig = Ok t /\ tokenizable t = true.
+Proof. exact resolve_rec_tokenizable. Qed.
+Print Assumptions C10_resolve_fuel_tokenizable.
+
+Theorem C10_tokenizable_no256 : forall t, tokenizable t = true -> no256 t = true.
+Proof. exact tokenizable_no256. Qed.
+Print Assumptions C10_tokenizable_no256.
 
 (** the boolean acyclicity check evaluated on every generated case constructs a rank function *)
 Theorem C10_rank_ok_sound : forall r, rank_ok r = true -> exists rank, ranked r rank.
@@ -77,6 +104,12 @@ Theorem C10_create_type_ir_total :
   exists o, create_type_ir r s t flat = Ok o /\ forall ir, o = Some ir -> ir_no256 ir.
 Proof. exact create_type_ir_total_pinned. Qed.
 Print Assumptions C10_create_type_ir_total.
+
+Theorem C10_create_type_ir_total_tokenizable :
+  forall r s rank, generable r s rank -> forall id t flat, resolve r id = Some t ->
+  exists o, create_type_ir r s t flat = Ok o /\ forall ir, o = Some ir -> ir_tokenizable ir.
+Proof. exact create_type_ir_total_tokenizable. Qed.
+Print Assumptions C10_create_type_ir_total_tokenizable.
 
 (** [flatten_recursive_derives] ([collect_type_ids] with fuel [S (length r)]) terminates *)
 Theorem C10_flatten_total :
